@@ -346,6 +346,8 @@ fn stream_play(bytes: &Arc<[u8]>, rate: u32, start: usize, segs: &[Seg]) -> Stre
 thread_local! {
 	/// slice (in frames) applied to the streaming data by stream_play_lp
 	static SLICE: std::cell::Cell<Option<(usize, usize)>> = const { std::cell::Cell::new(None) };
+	/// a second, open-ended slice `c..` applied after SLICE
+	static RESLICE: std::cell::Cell<Option<usize>> = const { std::cell::Cell::new(None) };
 }
 
 /// the same with an optional loop region (in frames)
@@ -363,6 +365,13 @@ fn stream_play_lp(bytes: &Arc<[u8]>, rate: u32, start: usize, lp: Option<(usize,
 		Some((a, b)) => data.slice(kira::sound::Region { start: PlaybackPosition::Samples(a), end: kira::sound::EndPosition::Custom(PlaybackPosition::Samples(b)) }),
 		None => data,
 	};
+	let data = match RESLICE.with(|s| s.get()) {
+		Some(c) => data.slice(kira::sound::Region { start: PlaybackPosition::Samples(c), end: kira::sound::EndPosition::EndOfAudio }),
+		None => data,
+	};
+	if SLICE.with(|s| s.get()).is_some() {
+		obs.num_frames = data.num_frames();
+	}
 	let data = match lp {
 		Some((a, b)) => data.loop_region(kira::sound::Region { start: PlaybackPosition::Samples(a), end: kira::sound::EndPosition::Custom(PlaybackPosition::Samples(b)) }),
 		None => data,
@@ -944,6 +953,62 @@ fn slice_case(fmt: Fmt, ch: u16, ctx: &mut Ctx) {
 	}
 }
 
+/// slicing already sliced data with an open-ended region: whatever the static sound makes of it, the stream makes the same
+fn reslice_case(fmt: Fmt, ch: u16, ctx: &mut Ctx) {
+	pacer::set_mode(pacer::Mode::Pacer);
+	let (n, rate) = (4000usize, 8000u32);
+	let spec = Spec { fmt, ch, n, rate, layout: Layout::Plain };
+	let (file, _, _) = encode(&spec);
+	let bytes: Arc<[u8]> = file.into();
+	let Loaded::Ok(loaded) = load_static(&bytes) else {
+		return ctx.fail("machinery: generated wav not loadable", spec.desc());
+	};
+	let reg = |a: usize, b: Option<usize>| kira::sound::Region { start: PlaybackPosition::Samples(a), end: b.map(|b| kira::sound::EndPosition::Custom(PlaybackPosition::Samples(b))).unwrap_or(kira::sound::EndPosition::EndOfAudio) };
+	for (a, b) in [(1000usize, 2000usize), (0, 1500), (2500, 4000)] {
+		for c in [0usize, 500, 1500, 2500, 3990] {
+			let stat = loaded.slice(reg(a, Some(b))).slice(reg(c, None));
+			let len = stat.num_frames();
+			let k = 64usize.min(len);
+			let ends = k == len;
+			let segs = vec![Seg { seek_by: None, seek: None, steps: k + ends as usize, render: k + 2 * ends as usize }];
+			ctx.evals += 1;
+			ctx.count("runs: re-sliced streaming scenarios", 1);
+			let detail = format!("{}: .slice({}..{}).slice({}..) on the static and on the streaming data; the static sound then has {} frames; {} frames streamed from its start", spec.desc(), a, b, c, len, k);
+			SLICE.with(|s| s.set(Some((a, b))));
+			RESLICE.with(|s| s.set(Some(c)));
+			let r = catch(|| stream_play(&bytes, rate, 0, &segs));
+			SLICE.with(|s| s.set(None));
+			RESLICE.with(|s| s.set(None));
+			let obs = match r {
+				Ok(o) => o,
+				Err(p) => {
+					ctx.fail(format!("panic: {} :: streaming a re-sliced valid wav file", p), detail);
+					continue;
+				}
+			};
+			if obs.hung {
+				ctx.fail("hang: the streaming decoder thread never finishes a decode-loop iteration :: a re-sliced valid wav file", detail);
+				return;
+			}
+			if obs.open_err.is_some() || obs.start_err.is_some() || !obs.errors.is_empty() {
+				ctx.fail("stream: a re-sliced valid wav file is refused / reports a decode error", format!("{:?} {:?} {:?}; {}", obs.open_err, obs.start_err, obs.errors, detail));
+				continue;
+			}
+			if obs.num_frames != len {
+				ctx.fail("stream: num_frames() of re-sliced streaming data differs from the static sound sliced the same way", format!("streaming {} static {}; {}", obs.num_frames, len, detail));
+				continue;
+			}
+			let out = &obs.out[0];
+			if let Some(j) = (0..out.len()).find(|&j| !same_frame(out[j], if j < k { stat.frame_at_index(j).unwrap_or(Frame::ZERO) } else { Frame::ZERO })) {
+				ctx.fail("stream: frames of a re-sliced stream differ from the static sound sliced the same way", format!("frame {}: got ({},{}); {}", j, out[j].left, out[j].right, detail));
+			} else if len > 0 {
+				ctx.nontrivial_extra += 1;
+			}
+			ctx.outcome(frames_hash(out));
+		}
+	}
+}
+
 // ---------------------------------------------------------------------------------------------
 // C: shipped assets (differential)
 
@@ -1264,7 +1329,10 @@ impl Check for C18 {
 			Case::Trunc(i, part) => truncation_case(&base(bases(tier)[*i]), *part, ctx),
 			Case::Corrupt(i, off) => corruption_case(&base(bases(tier)[*i]), *off, ctx),
 			Case::LongStream(f, ch) => long_stream_case(*f, *ch, ctx),
-			Case::Sliced(f, ch) => slice_case(*f, *ch, ctx),
+			Case::Sliced(f, ch) => {
+				slice_case(*f, *ch, ctx);
+				reslice_case(*f, *ch, ctx);
+			}
 			Case::LoopSeek(f, ch) => loop_seek_case(*f, *ch, ctx),
 			Case::SeekBy(f, ch) => seek_by_case(*f, *ch, ctx),
 		});
